@@ -27,3 +27,18 @@ MUTANTS = [
          desc='EQUIVALENT edit: | -> ^ when joining the byte value with an in-byte rank < 8 (must stay silent)',
          edits=[('bitmap/select.go', 'select8Lookup[(ww&0xff)<<3|uint64(findIth)]', 'select8Lookup[(ww&0xff)<<3^uint64(findIth)]', 0)]),
 ]
+MUTANTS += [
+    # ---- C18 (both survive the pinned suite, named in the property text)
+    dict(name='c18-write-cursor-backwards', props=['C18'],
+         desc='Write moves the cursor backwards: s.off -= int64(n)',
+         edits=[('iohelper/iohelper.go', 's.off += int64(n)', 's.off -= int64(n)')]),
+    dict(name='c18-seek-start-minus-base', props=['C18'],
+         desc='Seek(SeekStart) subtracts the base instead of adding it',
+         edits=[('iohelper/iohelper.go', 'offset += s.base', 'offset -= s.base')]),
+    dict(name='c18-writeat-limit-off-by-one', props=['C18'],
+         desc='WriteAt accepts off == size (writes one byte past the section when base > 0 ... at the limit)',
+         edits=[('iohelper/iohelper.go', 'if off < 0 || off >= s.limit-s.base {', 'if off < 0 || off > s.limit-s.base {')]),
+    dict(name='c18-write-advance-before-write', props=['C18'],
+         desc='cursor advanced by the requested length before the underlying write reports how much it took',
+         edits=[('iohelper/iohelper.go', 'n, err2 := s.w.WriteAt(p, s.off)\n\ts.off += int64(n)', 's.off += int64(len(p))\n\tn, err2 := s.w.WriteAt(p, s.off-int64(len(p)))')]),
+]
